@@ -114,6 +114,21 @@ def check_list(pkts, ctx=None):
                 raise V('packet-changed-or-reordered', '%s|%s' % (name, kind(d)),
                         'packet #%d (%d, %r) decoded as (%r, %r)' % (
                             i, t, d, p.packet_type, p.data), rep)
+    # decoding is a function of the body alone: what a consumer did to the packets of an earlier
+    # decode (handlers mutate their data) does not show in a later one
+    if len(pkts) <= 16 and not big and any(isinstance(d, (dict, list)) for _, d in pkts):
+        first = payload.Payload(encoded_payload=enc)
+        for p in first.packets:
+            if isinstance(p.data, dict):
+                p.data['__touched__'] = True
+            elif isinstance(p.data, list):
+                p.data.append('__touched__')
+        again = payload.Payload(encoded_payload=enc)
+        for i, ((t, d), p) in enumerate(zip(pkts, again.packets)):
+            if isinstance(d, (dict, list)) and not rm.jeq(p.data, d):
+                raise V('decode-depends-on-earlier-decodes', kind(d),
+                        'packet #%d decoded as %r after the data of an earlier decode of the same '
+                        'body was modified (expected %r)' % (i, p.data, d), rep)
     if ctx:
         kinds = set(kind(d) for _, d in pkts)
         cls = ['list-n=%s' % ('0' if not pkts else '1' if len(pkts) == 1 else
